@@ -1849,98 +1849,140 @@ Proof.
   apply count_unique with (d := false). intros i j _ _ Hi Hj. eapply live_unique; eauto.
 Qed.
 
+(* -- the four steps of a fresh call on an unconnected, quiet channel, one lemma per step, each about an
+      arbitrary state (keeps the terms small) *)
+Record agree (s s' : state) : Prop := {
+  ag_protocol : protocol s' = protocol s; ag_conns : conns s' = conns s; ag_locked : locked s' = locked s;
+  ag_waiters : waiters s' = waiters s; ag_script : script s' = script s; ag_creates : creates s' = creates s }.
+
+Lemma fc_start s : let n := length (callers s) in
+  agree s (step s Start) /\ getk (step s Start) n = new_caller /\ length (callers (step s Start)) = S n.
+Proof.
+  cbv zeta. split; [constructor; reflexivity|]. split.
+  - unfold getk. simpl. apply nth_app_new.
+  - simpl. rewrite app_length. simpl. lia.
+Qed.
+
+Lemma fc_first s n :
+  getk s n = new_caller -> n < length (callers s) -> connected s = false -> locked s = false -> waiters s = [] ->
+  hd (OOk, false) (script s) = (OOk, false) ->
+  let s' := step s (Run n) in
+  getk s' n = c_ph (PAttempt (AFlight OOk)) new_caller /\ conns s' = conns s /\ protocol s' = protocol s /\
+  creates s' = S (creates s) /\ waiters s' = [] /\ length (callers s') = length (callers s).
+Proof.
+  intros G Ln Cn L W Sc. cbv zeta. simpl step. unfold run_caller. cbv zeta. rewrite getk_deq, G.
+  simpl ph. simpl cancelp. cbv iota. unfold enter.
+  change (connected (deq (IRun n) s)) with (connected s). rewrite Cn.
+  unfold lock_free. change (locked (deq (IRun n) s)) with (locked s). change (waiters (deq (IRun n) s)) with (waiters s).
+  rewrite L, W. simpl andb. cbv iota. unfold locked_section. cbv zeta.
+  change (connected (set_chst Connecting (set_locked true (deq (IRun n) s)))) with (connected s). rewrite Cn.
+  simpl negb. cbv iota. unfold attempt.
+  change (script (set_chst Connecting (set_locked true (deq (IRun n) s)))) with (script s). rewrite Sc. cbv zeta iota.
+  unfold setph, updk, getk. simpl callers. simpl conns. simpl protocol. simpl creates. simpl waiters.
+  rewrite nth_upd_same, upd_length; auto. fold (getk s n). rewrite G. repeat split; auto.
+Qed.
+
+Lemma fc_resolve s n x :
+  getk s n = x -> ph x = PAttempt (AFlight OOk) -> n < length (callers s) ->
+  let s' := step s (Resolve n) in
+  getk s' n = c_ph (PAttempt (AOk (length (conns s)))) x /\ conns s' = conns s ++ [fresh_conn] /\
+  protocol s' = protocol s /\ creates s' = creates s /\ waiters s' = waiters s /\
+  length (callers s') = length (callers s).
+Proof.
+  intros G P Ln. cbv zeta. simpl step. rewrite G, P. unfold new_conn, setph, updk, getk.
+  simpl callers. simpl conns. simpl protocol. simpl creates. simpl waiters.
+  rewrite nth_upd_same, upd_length; auto. fold (getk s n). rewrite G. repeat split; auto.
+Qed.
+
+Lemma fc_owner s n x c :
+  getk s n = x -> ph x = PAttempt (AOk c) -> cancelp x = false -> n < length (callers s) ->
+  c < length (conns s) -> getc s c = fresh_conn -> waiters s = [] ->
+  let s' := step s (Run n) in
+  getk s' n = c_ph (PReg c) x /\ protocol s' = Some c /\ getc s' c = n_calls [n] fresh_conn /\
+  creates s' = creates s /\ locked s' = false /\ length (conns s') = length (conns s) /\
+  length (callers s') = length (callers s).
+Proof.
+  intros G P C Ln Lc Gc W. cbv zeta. simpl step. unfold run_caller. cbv zeta. rewrite getk_deq, G, P, C.
+  unfold finish_ok, ret. rewrite release_protocol. simpl protocol. cbv iota. unfold proceed. cbv zeta.
+  match goal with |- context [closing (getc ?t c)] => assert (GC : getc t c = fresh_conn) end.
+  { unfold getc. rewrite release_conns. exact Gc. }
+  rewrite GC. simpl closing. simpl paused. cbv iota. unfold register.
+  match goal with |- context [release ?t] => set (s1 := t) end.
+  assert (R1 : callers (release s1) = callers s) by (rewrite release_callers; reflexivity).
+  assert (R2 : conns (release s1) = conns s) by (rewrite release_conns; reflexivity).
+  assert (R3 : protocol (release s1) = Some c) by (rewrite release_protocol; reflexivity).
+  assert (R4 : creates (release s1) = creates s) by (rewrite release_creates; reflexivity).
+  assert (R5 : locked (release s1) = false) by apply release_locked.
+  clear GC. clearbody s1. generalize dependent (release s1). intros r R1 R2 R3 R4 R5.
+  unfold setph, updk, updc, getk, getc. simpl callers. simpl conns. simpl protocol. simpl creates. simpl locked.
+  rewrite R1, R2, R3, R4, R5, !upd_length, !nth_upd_same; auto.
+  fold (getk s n). fold (getc s c). rewrite G, Gc. repeat split; auto.
+Qed.
+
+Lemma fc_answer s n x c :
+  getk s n = x -> ph x = PReg c -> answered x = false -> n < length (callers s) -> valid_open s c = true ->
+  let s' := step s (Answer n) in
+  getk s' n = c_answered true x /\ conns s' = conns s /\ protocol s' = protocol s /\ creates s' = creates s.
+Proof.
+  intros G P A Ln V. cbv zeta. simpl step. rewrite G, P, V, A. simpl andb. cbv iota.
+  rewrite getk_mark, mark_conns, mark_protocol, mark_creates, getk_updk_flag, Nat.eqb_refl.
+  apply Nat.ltb_lt in Ln. rewrite Ln, G. auto.
+Qed.
+
+Lemma fc_done s n x c :
+  getk s n = x -> ph x = PReg c -> term x = false -> cancelp x = false -> answered x = true ->
+  n < length (callers s) ->
+  let s' := step s (Run n) in
+  ph (getk s' n) = PEnd (ROk c) /\ protocol s' = protocol s /\ creates s' = creates s /\ lives s' = lives s.
+Proof.
+  intros G P T C A Ln. cbv zeta. simpl step. unfold run_caller. cbv zeta. rewrite getk_deq, G, P, T, C, A.
+  repeat split.
+  - unfold endc, setph, updk, getk. simpl callers. rewrite nth_upd_same; auto.
+  - rewrite lives_endc, lives_updc_same. reflexivity. intros []; reflexivity.
+Qed.
+
 Lemma fresh_call_connects s :
   Inv s -> quiet s -> connected s = false -> hd (OOk, false) (script s) = (OOk, false) ->
   let n := length (callers s) in let c := length (conns s) in
   let s' := run [Start; Run n; Resolve n; Run n] s in
   creates s' = S (creates s) /\ protocol s' = Some c /\ ph (getk s' n) = PReg c /\
   conn_live (getc s' c) = true /\ live_connections s' = 1 /\ locked s' = false /\
-  In n (calls (getc s' c)) /\ getk s' n = c_ph (PReg c) new_caller /\ getc s' c = n_calls [n] fresh_conn.
+  In n (calls (getc s' c)) /\ getk s' n = c_ph (PReg c) new_caller /\ getc s' c = n_calls [n] fresh_conn /\
+  length (callers s') = S n /\ length (conns s') = S c.
 Proof.
   intros I (QW & QL & QP) Cn Sc n c.
-  (* step 1: Start *)
-  set (s1 := step s Start).
-  assert (G1 : getk s1 n = new_caller) by (unfold s1, getk; simpl; apply nth_app_new).
-  (* step 2: the task's first step: lock free, not connected -> deferred attempt *)
-  set (s2 := step s1 (Run n)).
-  assert (E2 : s2 = setph n (PAttempt (AFlight OOk))
-                  (set_creates (S (creates s)) (set_script (tl (script s))
-                     (set_chst Connecting (set_locked true (deq (IRun n) s1)))))).
-  { unfold s2. simpl step. unfold run_caller. cbv zeta. rewrite getk_deq, G1. simpl ph. simpl cancelp. cbv iota.
-    unfold enter. change (connected (deq (IRun n) s1)) with (connected s). rewrite Cn.
-    unfold lock_free. change (locked (deq (IRun n) s1)) with (locked s). change (waiters (deq (IRun n) s1)) with (waiters s).
-    rewrite QL, QW. simpl. unfold locked_section. cbv zeta.
-    change (connected (set_chst Connecting (set_locked true (deq (IRun n) s1)))) with (connected s). rewrite Cn.
-    simpl negb. cbv iota. unfold attempt.
-    change (script (set_chst Connecting (set_locked true (deq (IRun n) s1)))) with (script s). rewrite Sc. reflexivity. }
-  assert (Ln : n < length (callers s ++ [new_caller])) by (rewrite app_length; simpl; unfold n; lia).
-  assert (G2 : ph (getk s2 n) = PAttempt (AFlight OOk)).
-  { rewrite E2. unfold getk, setph, updk. simpl. rewrite nth_upd_same; auto. }
-  (* step 3: the attempt succeeds: connection c is made *)
-  set (s3 := step s2 (Resolve n)).
-  assert (E3 : s3 = enq (IRun n) (setph n (PAttempt (AOk c)) (set_conns (conns s ++ [fresh_conn]) s2))).
-  { unfold s3. simpl step. rewrite G2. unfold new_conn. rewrite E2. reflexivity. }
-  assert (G3 : getk s3 n = c_ph (PAttempt (AOk c)) new_caller).
-  { rewrite E3, E2. unfold getk, setph, updk. simpl. rewrite !nth_upd_same; auto. unfold n. rewrite nth_app_new. reflexivity.
-    rewrite upd_length. auto. }
-  (* step 4: the owner resumes *)
-  set (s4 := step s3 (Run n)).
-  assert (E4 : s4 = finish_ok n c (deq (IRun n) s3)).
-  { unfold s4. simpl step. unfold run_caller. cbv zeta. rewrite getk_deq, G3. reflexivity. }
-  change (run [Start; Run n; Resolve n; Run n] s) with s4.
-  destruct (finish_ok_spec n c (deq (IRun n) s3)) as (v & P & _ & Q & L & W & Pr & Cr & _ & _ & Lv).
-  rewrite <- E4 in *.
-  assert (C3 : conns (deq (IRun n) s3) = conns s ++ [fresh_conn]) by (rewrite E3; reflexivity).
-  assert (LC : conn_live (getc s4 c) = true).
-  { rewrite live_getc. unfold lives. rewrite Lv, C3, map_app. simpl map.
-    replace c with (length (map conn_live (conns s))) by (rewrite map_length; reflexivity). apply nth_app_new. }
-  assert (Kl : n < length (phases (deq (IRun n) s3))).
-  { apply getk_lt. rewrite getk_deq, G3. discriminate. }
-  pose proof (finish_ok_good n c (deq (IRun n) s3)) as GR. rewrite <- E4 in GR.
-  assert (LC3 : conn_live (getc (deq (IRun n) s3) c) = true).
-  { unfold getc. rewrite C3. unfold c. rewrite nth_app_new. reflexivity. }
-  specialize (GR LC3 Kl). unfold good_ret in GR.
-  assert (PH : ph (getk s4 n) = v).
-  { rewrite getk_ph. fold dph. rewrite P. apply nth_upd_same. exact Kl. }
-  (* the fresh connection is neither closing nor paused: the call registers *)
-  assert (REG : s4 = register n c (release (set_chst Ready (set_protocol (Some c) (deq (IRun n) s3))))).
-  { rewrite E4. unfold finish_ok, ret. rewrite release_protocol. simpl protocol. cbv iota. unfold proceed. cbv zeta.
-    match goal with |- context [closing (getc ?t c)] => assert (GC : getc t c = fresh_conn) end.
-    { unfold getc. rewrite release_conns.
-      change (conns (set_chst Ready (set_protocol (Some c) (deq (IRun n) s3)))) with (conns (deq (IRun n) s3)).
-      rewrite C3. unfold c. apply nth_app_new. }
-    rewrite GC. reflexivity. }
-  assert (PR : ph (getk s4 n) = PReg c).
-  { rewrite REG. unfold register. rewrite getk_ph, phases_setph. fold dph. apply nth_upd_same.
-    change (phases (updc c (fun x => n_calls (calls x ++ [n]) x) (release (set_chst Ready (set_protocol (Some c) (deq (IRun n) s3))))))
-      with (phases (release (set_chst Ready (set_protocol (Some c) (deq (IRun n) s3))))).
-    rewrite phases_release. exact Kl. }
-  assert (Cr4 : creates s4 = S (creates s)). { rewrite Cr, E3, E2. reflexivity. }
-  assert (I4 : Inv s4). { unfold s4, s3, s2, s1. repeat apply step_inv. exact I. }
+  change (run [Start; Run n; Resolve n; Run n] s) with (step (step (step (step s Start) (Run n)) (Resolve n)) (Run n)).
+  destruct (fc_start s) as (A1 & G1 & L1). fold n in G1, L1.
+  assert (I1 : Inv (step s Start)) by (apply step_inv; auto).
+  destruct A1 as [a1 a2 a3 a4 a5 a6].
+  remember (step s Start) as s1 eqn:Hs1. clear Hs1.
+  assert (Cn1 : connected s1 = false). { unfold connected, getc in *. rewrite a1, a2. exact Cn. }
+  destruct (fc_first s1 n G1 ltac:(lia) Cn1 ltac:(congruence) ltac:(congruence) ltac:(congruence))
+    as (G2 & C2 & P2 & Cr2 & W2 & L2).
+  assert (I2 : Inv (step s1 (Run n))) by (apply step_inv; auto).
+  remember (step s1 (Run n)) as s2 eqn:Hs2. clear Hs2.
+  destruct (fc_resolve s2 n _ G2 eq_refl ltac:(lia)) as (G3 & C3 & P3 & Cr3 & W3 & L3).
+  assert (I3 : Inv (step s2 (Resolve n))) by (apply step_inv; auto).
+  remember (step s2 (Resolve n)) as s3 eqn:Hs3. clear Hs3.
+  assert (Ec : length (conns s2) = c) by (unfold c; congruence).
+  rewrite Ec in G3.
+  assert (Gc3 : getc s3 c = fresh_conn).
+  { unfold getc. rewrite C3, <- Ec. apply nth_app_new. }
+  destruct (fc_owner s3 n _ c G3 eq_refl eq_refl ltac:(lia) ltac:(rewrite C3, app_length; simpl; lia) Gc3 ltac:(congruence))
+    as (G4 & P4 & Gc4 & Cr4 & L4 & Lc4 & Ln4).
+  assert (I4 : Inv (step s3 (Run n))) by (apply step_inv; auto).
+  remember (step s3 (Run n)) as s4 eqn:Hs4. clear Hs4.
+  assert (LC : conn_live (getc s4 c) = true) by (rewrite Gc4; reflexivity).
   repeat split; auto.
+  - lia.
+  - rewrite G4. reflexivity.
   - assert (1 <= live_connections s4).
     { unfold live_connections. apply count_pos with (d := dead_conn) (n := c); auto.
-      destruct (le_lt_dec (length (conns s4)) c); auto. unfold getc in LC. rewrite nth_overflow in LC; auto. discriminate. }
+      rewrite Lc4, C3, app_length. simpl. lia. }
     pose proof (inv_live_le1 s4 I4). lia.
-  - rewrite REG. unfold register.
-    change (getc (setph n (PReg c) (updc c (fun x => n_calls (calls x ++ [n]) x) (release (set_chst Ready (set_protocol (Some c) (deq (IRun n) s3)))))) c)
-      with (getc (updc c (fun x => n_calls (calls x ++ [n]) x) (release (set_chst Ready (set_protocol (Some c) (deq (IRun n) s3))))) c).
-    rewrite getc_updc_same. simpl. apply in_or_app. right. simpl. auto.
-    rewrite release_conns. change (conns (set_chst Ready (set_protocol (Some c) (deq (IRun n) s3)))) with (conns (deq (IRun n) s3)).
-    rewrite C3, app_length. simpl. unfold c. lia.
-  - rewrite REG. unfold register, getk, setph, updk. simpl callers. rewrite release_callers.
-    change (callers (set_chst Ready (set_protocol (Some c) (deq (IRun n) s3)))) with (callers s3).
-    rewrite nth_upd_same. fold (getk s3 n). rewrite G3. reflexivity.
-    rewrite <- phases_length. exact Kl.
-  - rewrite REG. unfold register.
-    change (getc (setph n (PReg c) (updc c (fun x => n_calls (calls x ++ [n]) x) (release (set_chst Ready (set_protocol (Some c) (deq (IRun n) s3)))))) c)
-      with (getc (updc c (fun x => n_calls (calls x ++ [n]) x) (release (set_chst Ready (set_protocol (Some c) (deq (IRun n) s3))))) c).
-    rewrite getc_updc_same.
-    + unfold getc. rewrite release_conns.
-      change (conns (set_chst Ready (set_protocol (Some c) (deq (IRun n) s3)))) with (conns (deq (IRun n) s3)).
-      rewrite C3. unfold c. rewrite nth_app_new. reflexivity.
-    + rewrite release_conns. change (conns (set_chst Ready (set_protocol (Some c) (deq (IRun n) s3)))) with (conns (deq (IRun n) s3)).
-      rewrite C3, app_length. simpl. unfold c. lia.
+  - rewrite Gc4. simpl. auto.
+  - lia.
+  - rewrite Lc4, C3, app_length. simpl. lia.
 Qed.
 
 Lemma chclose_quiet s : quiet s -> quiet (step s ChClose) /\ connected (step s ChClose) = false /\
@@ -1957,6 +1999,11 @@ Proof.
   - unfold quiet, connected. simpl. rewrite Pr. repeat split; auto.
 Qed.
 
+Lemma run_cons o l s : run (o :: l) s = run l (step s o).
+Proof. reflexivity. Qed.
+Lemma run_app l1 l2 s : run (l1 ++ l2) s = run l2 (run l1 s).
+Proof. unfold run. apply fold_left_app. Qed.
+
 (* ---- (T7) the channel remains usable after close(): a fresh call reconnects (exactly one new
         connection) and completes *)
 Lemma usable_after_close s :
@@ -1968,37 +2015,27 @@ Lemma usable_after_close s :
 Proof.
   intros I Q Sc n c.
   destruct (chclose_quiet s Q) as (Q0 & Cn0 & Sc0 & Ln0 & Lc0 & Cr0).
-  set (s0 := step s ChClose) in *.
-  assert (I0 : Inv s0) by (apply step_inv; auto).
+  assert (I0 : Inv (step s ChClose)) by (apply step_inv; auto).
+  rewrite run_cons.
+  change [Start; Run n; Resolve n; Run n; Answer n; Run n] with ([Start; Run n; Resolve n; Run n] ++ [Answer n; Run n]).
+  rewrite run_app.
+  set (s4' := run [Start; Run n; Resolve n; Run n] (step s ChClose)).
+  unfold run. cbn [fold_left]. subst s4'.
   rewrite <- Sc0 in Sc.
+  remember (step s ChClose) as s0 eqn:Hs0. clear Hs0.
   pose proof (fresh_call_connects s0 I0 Q0 Cn0 Sc) as F. cbv zeta in F. rewrite Ln0, Lc0 in F. fold n c in F.
-  change (run [ChClose; Start; Run n; Resolve n; Run n; Answer n; Run n] s)
-    with (step (step (run [Start; Run n; Resolve n; Run n] s0) (Answer n)) (Run n)).
-  set (s4 := run [Start; Run n; Resolve n; Run n] s0) in *.
-  destruct F as (Cr & Pr & PH & LC & _ & _ & _ & GK & GC).
-  assert (Lc4 : c < length (conns s4)).
-  { destruct (le_lt_dec (length (conns s4)) c); auto. unfold getc in LC. rewrite nth_overflow in LC; auto. discriminate. }
+  destruct F as (Cr & Pr & PH & LC & _ & _ & _ & GK & GC & LnK & LcK).
+  remember (run [Start; Run n; Resolve n; Run n] s0) as s4 eqn:Hs4. clear Hs4.
   assert (V : valid_open s4 c = true).
-  { unfold valid_open. rewrite GC. apply Nat.ltb_lt in Lc4. rewrite Lc4. reflexivity. }
-  assert (Ln4 : n < length (callers s4)).
-  { rewrite <- phases_length. apply getk_lt. rewrite PH. discriminate. }
-  set (s5 := step s4 (Answer n)).
-  assert (G5 : getk s5 n = c_answered true (c_ph (PReg c) new_caller) /\ conns s5 = conns s4 /\
-               protocol s5 = protocol s4 /\ creates s5 = creates s4).
-  { unfold s5. simpl step. rewrite PH, V, GK. simpl andb. cbv iota.
-    rewrite getk_mark, mark_conns, mark_protocol, mark_creates, getk_updk_flag, Nat.eqb_refl.
-    apply Nat.ltb_lt in Ln4. rewrite Ln4, GK. auto. }
-  destruct G5 as (G5 & C5 & P5 & Cr5).
-  assert (X : step s5 (Run n) = endc n (ROk c) (updc c (fun y => n_calls (remove_nat n (calls y)) y) (deq (IRun n) s5))).
-  { simpl step. unfold run_caller. cbv zeta. rewrite getk_deq, G5. reflexivity. }
-  rewrite X. repeat split.
-  - change (creates s5 = S (creates s)). rewrite Cr5, Cr, Cr0. reflexivity.
-  - change (protocol s5 = Some c). rewrite P5. exact Pr.
-  - rewrite getk_ph. unfold endc. rewrite phases_setph. fold dph. apply nth_upd_same.
-    change (phases (updc c (fun y => n_calls (remove_nat n (calls y)) y) (deq (IRun n) s5))) with (phases s5).
-    apply getk_lt. rewrite G5. discriminate.
-  - rewrite live_getc. rewrite lives_endc, lives_updc_same. 2: intros []; reflexivity.
-    unfold lives. change (conns (deq (IRun n) s5)) with (conns s5). rewrite C5. fold (lives s4).
-    rewrite <- live_getc. exact LC.
+  { unfold valid_open. rewrite GC. assert (c < length (conns s4)) by lia. apply Nat.ltb_lt in H. rewrite H. reflexivity. }
+  destruct (fc_answer s4 n _ c GK eq_refl eq_refl ltac:(lia) V) as (G5 & C5 & P5 & Cr5).
+  assert (L5 : length (callers (step s4 (Answer n))) = length (callers s4)).
+  { simpl step. rewrite PH, V, GK. simpl andb. cbv iota. rewrite mark_callers. unfold updk. simpl. apply upd_length. }
+  remember (step s4 (Answer n)) as s5 eqn:Hs5. clear Hs5.
+  destruct (fc_done s5 n _ c G5 eq_refl eq_refl eq_refl eq_refl ltac:(lia)) as (PH6 & P6 & Cr6 & Lv6).
+  repeat split.
+  - congruence.
+  - congruence.
+  - exact PH6.
+  - rewrite live_getc, Lv6. unfold lives. rewrite C5. fold (lives s4). rewrite <- live_getc. exact LC.
 Qed.
-
